@@ -5,7 +5,7 @@
 
    The fragment (the harness generates templates in it and prints them both as Go template text
    and as the AST below):
-     text, {{ .A.B }}, {{ toJson .A.B }}, {{ include "n" . }}, {{ tpl "<src>" . }},
+     text, {{ .A.B }}, {{ toJson .A.B }}, {{ include "n" . }}, {{ tpl "<src>" . }}, {{ tpl "<src>" . | toJson }},
      {{ required "msg" .A.B }}, {{ fail "msg" }}, {{ lookup "v1" "Pod" "ns" "x" | toJson }},
      {{ .Files.Get "name" }}, {{ define "n" }}...{{ end }} at the top level of a source,
      and a construct that does not parse.
@@ -28,6 +28,7 @@ Inductive node :=
 | NToJson (path : list string)
 | NInclude (name : string)
 | NTpl (src : list node)
+| NTplJson (src : list node)                    (* {{ tpl "<src>" . | toJson }}: what tpl returns, before the outer replacement *)
 | NRequired (msg : string) (path : list string)
 | NFail (msg : string)
 | NLookup
@@ -202,6 +203,17 @@ Section Exec.
                                                     end)
                                   (e_strict o) (mkSet d []) cnt src scope with
                      | ((out, None), cnt') => Some (out, cnt')
+                     | ((_, Some _), _) => None
+                     end
+                 | NTplJson src =>
+                     match tpl_fn mset_t (list node) (fun _ => "") (fun t => Some t) (fun _ t => t) (fun t => t)
+                                  (fun t s => parse_src t "gotpl" s)
+                                  (fun t s1 vals => match eval f (defs t) s1 vals (main t) with
+                                                    | Some (out, s2) => ((out, None), s2)
+                                                    | None => (("", Some "execution"), s1)
+                                                    end)
+                                  (e_strict o) (mkSet d []) cnt src scope with
+                     | ((out, None), cnt') => Some (json_string out, cnt')
                      | ((_, Some _), _) => None
                      end
                  | NRequired msg p =>
